@@ -1,6 +1,7 @@
 package main
 
 import (
+	"regexp"
 	"fmt"
 	"go/types"
 	"os"
@@ -206,10 +207,25 @@ func (e *Eng) typesPkg(path string) *types.Package {
 
 func (e *Eng) indexFuncs() {
 	e.funcIndex = map[string]*ssa.Function{}
+	var generic []*ssa.Function
 	for fn := range ssautil.AllFunctions(e.prog) {
 		e.funcIndex[fn.String()] = fn
+		if len(fn.TypeArgs()) > 0 && len(fn.Blocks) > 0 {
+			generic = append(generic, fn)
+		}
+	}
+	// instances of generic functions are also found under the name without type arguments (the contract of a generic
+	// function is checked on one of its instantiations: the first in name order)
+	sort.Slice(generic, func(i, j int) bool { return generic[i].String() < generic[j].String() })
+	for _, fn := range generic {
+		plain := typeArgsRe.ReplaceAllString(fn.String(), "")
+		if _, have := e.funcIndex[plain]; !have {
+			e.funcIndex[plain] = fn
+		}
 	}
 }
+
+var typeArgsRe = regexp.MustCompile(`\[[^\[\]]*\]`)
 
 func (e *Eng) bindError(sp *FuncSpec, c *Clause, err error) {
 	name := "?"
